@@ -1171,6 +1171,22 @@ class Interp:
                     return vals[li.lin[1]]
                 except IndexError:
                     raise RaiseSig(ExcV("IndexError", ("index", desc(idx))), node)
+        # the first / last element of a sorted sequence is its minimum / maximum (the value min()/max() would give)
+        sb = getattr(o, "sorted_by", None)
+        li0 = self.as_lin(idx)
+        if sb is not None and sb[0] is None and li0 is not None and F.lin_is_const(li0.lin) and li0.lin[1] in (0, -1) and o.segs and sb[1] in (None, ("c", False), ("c", True)):
+            rev = sb[1] == ("c", True)
+            name = "min" if (li0.lin[1] == 0) != rev else "max"
+            dsegs = []
+            for sg in o.segs:
+                if sg[0] == "one":
+                    dsegs.append(("one", desc(sg[1])))
+                elif sg[0] == "each":
+                    dsegs.append(("each", sg[1], sg[2], sg[3], desc(sg[4])))
+                else:
+                    dsegs.append(sg)
+            self.log("aggregate", node, how=name, segs=tuple(dsegs), default=None)
+            return LinV(F.lin_term((name, tuple(dsegs))))
         # a list that is one unguarded 'each' over an indexable family: element at a symbolic position
         if len(o.segs) == 1 and o.segs[0][0] == "each" and o.segs[0][3] == PTRUE:
             _, b, fam, g, val = o.segs[0]
